@@ -133,18 +133,15 @@ impl RefProp {
                 self.frames[i].1
             }
         };
+        // frames are in position order: binary search (the wide families have up to 2^17+1 frames)
+        let lo = self.frames.partition_point(|f| f.0 < q);
+        let hi = self.frames.partition_point(|f| f.0 <= q);
         // coincidence with more than one keyframe
-        let hits = self.frames.iter().filter(|f| f.0 == q).count();
-        if hits >= 2 {
+        if hi - lo >= 2 {
             return RV::Ambiguous;
         }
         // last frame with pos <= q
-        let mut i = 0;
-        for (j, f) in self.frames.iter().enumerate() {
-            if f.0 <= q {
-                i = j;
-            }
-        }
+        let i = hi.saturating_sub(1);
         if i == n - 1 {
             return RV::Val(val(i)); // hold
         }
@@ -159,12 +156,15 @@ impl RefProp {
     /// True if q lies strictly between two distinct defining positions with different values
     /// (the result really depends on interpolation).
     pub fn interpolating_at(&self, q: f64) -> bool {
-        for w in self.frames.windows(2) {
-            if w[0].0 < q && q < w[1].0 && w[0].1 != w[1].1 {
-                return true;
-            }
+        // the only candidate segment ends at the first frame with position >= q
+        let j = self.frames.partition_point(|f| f.0 < q);
+        if j == 0 || j >= self.frames.len() {
+            return false;
         }
-        false
+        // frames before j have pos < q; frame j has pos >= q; with repeated positions the segment that
+        // contains q is (j-1, j)
+        let (w0, w1) = (self.frames[j - 1], self.frames[j]);
+        w0.0 < q && q < w1.0 && w0.1 != w1.1
     }
 
     /// Position of the property's second frame (end of the stretch a start value can influence).
